@@ -49,9 +49,9 @@ def main(tier):
                     st[k] += o[k]
         st["per_depth_mux_seeds_b1"] = stb["per_depth"]
     else:
-        st = e2.explore(run, list(e2.SEEDS), D, B, trans_check=trans_check, state_check=state_check, phase_ops=False)
+        st = e2.explore(run, list(e2.SEEDS), D, B, trans_check=trans_check, state_check=state_check, phase_ops=False, max_states=5000000)
     if tier != "quick":
-        st2 = e2.explore(run, ["single", "mux"], 5, 1, letters="RIM", trans_check=trans_check, state_check=state_check, phase_ops=False)
+        st2 = e2.explore(run, ["single", "mux"], 5, 1, letters="RIM", trans_check=trans_check, state_check=state_check, phase_ops=False, max_states=3000000)
         for k in ("states", "transitions", "rejected"):
             st[k] += st2[k]
         st["per_depth_d5b1"] = st2["per_depth"]
